@@ -10,7 +10,7 @@ namespace SkVerif.Lem.ST
 open SkVerif SkVerif.ST
 
 def shiftDes (c : Int) (s : Des) : Des := { s with y0 := s.y0.map (· + c) }
-def shiftFc (c : Int) (fc : Fc) : Fc := { fc with y := shiftSeries c fc.y }
+def shiftFc (c : Int) (fc : Fc) : Fc := { fc with y := shiftSeries c fc.y, origin := fc.origin.map (· + c) }
 def shiftDet (c : Int) (s : Det) : Det := { s with fc := s.fc.map (shiftFc c) }
 
 /-- the state reached by the shifted history -/
@@ -218,6 +218,9 @@ theorem combineFirst_shift (c : Int) (new old : Series) :
     rw [this]
     exact ih _
 
+theorem firstLabel_shift (c : Int) (y : Series) : firstLabel (shiftSeries c y) = (firstLabel y).map (· + c) :=
+  head?_labels_shift c y
+
 theorem detFit_shift (c : Int) (s : Det) (inp : Input) :
     detFit (shiftDet c s) (shiftInput c inp) = (shiftDet c (detFit s inp).1, (detFit s inp).2) := by
   unfold detFit
@@ -225,7 +228,7 @@ theorem detFit_shift (c : Int) (s : Det) (inp : Input) :
   cases checkSeries false inp with
   | error e => rfl
   | ok z =>
-    simp only [Except.map, regFitOk_shift, someVals_shift]
+    simp only [Except.map, regFitOk_shift, someVals_shift, firstLabel_shift]
     split <;> rfl
 
 theorem nodup_labels_shift (c : Int) (z : Series) :
@@ -258,17 +261,15 @@ theorem detApply_shift (reg : Reg) (c : Int) (s : Det) (inv : Bool) (inp : Input
         split
         · rfl
         · have ht : (shiftFc c fc).train = fc.train := rfl
-          have hy : (shiftFc c fc).y.head? = fc.y.head?.map (fun p => (p.1 + c, p.2)) := by
-            simp [shiftFc, shiftSeries]
+          have hy : (shiftFc c fc).origin = fc.origin.map (· + c) := rfl
           rw [ht, hy]
           cases fc.train with
           | none =>
-            cases fc.y.head? <;> simp [shiftDet, shiftFc, shiftOut]
+            cases fc.origin <;> simp [shiftDet, shiftFc, shiftOut]
           | some tv =>
-            cases fc.y.head? with
+            cases fc.origin with
             | none => simp [shiftDet, shiftFc, shiftOut]
             | some o =>
-              obtain ⟨o, ov⟩ := o
               simp only [Option.map_some, shiftOut, shiftDet, shiftFc, shiftSeries, List.map_map,
                 Function.comp_def, Prod.mk.injEq, true_and]
               have hd : (shiftDet c s).degree = s.degree := rfl
@@ -303,7 +304,7 @@ theorem detUpdate_shift (c : Int) (s : Det) (inp : Input) (up : Bool) :
         split
         · rfl
         · exact combineFirst_shift c z fc.y
-      rw [hy, regFitOk_shift, someVals_shift]
+      rw [hy, regFitOk_shift, someVals_shift, firstLabel_shift]
       have hfh : (shiftFc c fc).fhSet = fc.fhSet := rfl
       rw [hfh]
       by_cases h1 : up = true
